@@ -154,7 +154,7 @@ def idc_star(
         graph, new_outcomes | new_conditions, _number_recursions=_number_recursions + 1
     )
     logger.debug(f"[{_number_recursions}]: Returned from ID* with estimand {id_star_estimand}")
-    if len(conditions) == 0:
+    if len(conditions) == 0 or isinstance(id_star_estimand, Zero):
         return id_star_estimand
 
     idc_star_estimand = id_star_estimand.conditional([c.get_base() for c in conditions])
